@@ -34,7 +34,7 @@ LEGAL_PREFIXES = ['', 'r', 'R', 'u', 'U']
 
 def run(ctx):
     for fn in (r1_failed_line_offset, r1_failed_lineno, r1_google_body_line, r1_freeform_regroup, r1_slice_example,
-               r1_overwrite_lineno, r1_docstring_start, r2_first_frame, r3_docstring_prefixes, r3b_trailing_comment_pattern, r3_def_line_pattern, r4_freeform_offset, r5_exec_lines_are_physical_lines, r6_zero_is_a_line_offset, r7_compile_error_line):
+               r1_overwrite_lineno, r1_docstring_start, r2_first_frame, r3_docstring_prefixes, r3b_trailing_comment_pattern, r3_def_line_pattern, r4_freeform_offset, r5_exec_lines_are_physical_lines, r6_zero_is_a_line_offset, r7_compile_error_line, r8_google_block_offsets_count_newlines):
         ctx.rep.rule(fn, ctx)
 
 
@@ -760,6 +760,28 @@ def r7_compile_error_line(ctx):
                'the failing line of a compile-time error is read from `.%s`, which is not the line (offset is the column): the report points at a wrong line' % attr, anchor=RUN)
 
 
+def r8_google_block_offsets_count_newlines(ctx):
+    """the offset of a google block is a number of lines of the docstring VALUE and is added to the source line of the docstring: a line of the
+    value corresponds to a source line exactly at '\\n' (an escape such as \\f, \\x1e or \\r in a non-raw docstring puts a character into the value that
+    str.splitlines breaks at, although the source has no line break there).  Every definition of the line list of split_google_docblocks must
+    therefore split at '\\n' only -- and all of them alike."""
+    rep = ctx.rep
+    f = ctx.func('xdoctest.docstr.docscrape_google.split_google_docblocks')
+    defs = []
+    for x in walk_scope(f.node):
+        if isinstance(x, ast.Assign) and len(x.targets) == 1 and isinstance(x.targets[0], ast.Name) and isinstance(x.value, ast.Call) and isinstance(x.value.func, ast.Attribute) \
+                and x.value.func.attr in ('split', 'splitlines') and is_name(x.value.func.value, f.node.args.args[0].arg):
+            defs.append(x)
+    rep.floor('C08.R8', 'splits of the docstring into lines', len(defs), 1)
+    for x in defs:
+        c = x.value
+        ok = c.func.attr == 'split' and len(c.args) == 1 and isinstance(c.args[0], ast.Constant) and c.args[0].value == '\n'
+        rep.ob('C08.R8', ctx.loc(f, x), ctx.src(x), ok,
+               "lines of the docstring value are counted at '\\n' only" if ok else
+               "the docstring is cut into lines by %s: a form feed, FS/GS/RS, NEL ... or a lone carriage return inside the docstring value (written as an escape, so the source has no "
+               "line break there) starts a new line for the block offsets, and every line number of the blocks after it is one too large" % ctx.src(c), anchor=f.qualname)
+
+
 # ---------------------------------------------------------------------------
 from ..selftest import fire, silent      # noqa: E402
 
@@ -768,6 +790,7 @@ SA = 'xdoctest/static_analysis.py'
 CO = 'xdoctest/core.py'
 PA = 'xdoctest/parser.py'
 VARIANTS = [
+    fire('google-blocks-split-with-splitlines', 'C08.R8', ('xdoctest/docstr/docscrape_google.py', "    docstr = textwrap.dedent(docstr)\n    docstr_lines = docstr.split('\\n')\n", "    docstr = textwrap.dedent(docstr)\n    docstr_lines = docstr.splitlines()\n")),
     fire('first-line-failure-has-no-line', 'C08.R6', (DE, "        offset = self.failed_line_offset()\n        if offset is None:\n", "        offset = self.failed_line_offset()\n        if not offset:\n")),
     fire('compile-error-column-taken-for-line', 'C08.R7', (DE, "getattr(ex_value, 'lineno', None) or 1", "getattr(ex_value, 'offset', None) or 1")),
     fire('trailing-comment-needs-a-blank', 'C08.R3b', ('xdoctest/static_analysis.py', "            pattern = re.escape(trip) + r'\\s*#.*$'\n", "            pattern = re.escape(trip) + r'\\s+#.*$'\n")),
